@@ -53,8 +53,8 @@ func (p *solverProc) kill() {
 
 type SolverStats struct {
 	Queries, Sat, Unsat, Unknown, Errors int64
-	ByKind                              map[string]int64
-	Nanos                               int64
+	ByKind                               map[string]int64
+	Nanos                                int64
 }
 
 var gStats struct {
